@@ -96,7 +96,7 @@ def gen_case(rng, tier, avoid):
     elif exit_kind == 'rejected_call':
         body.insert(rng.randint(2, len(body) - 1), {'op': 'add', 'lf': spec.lfs[0]['lf'], 'kind': 'zone', 'h': 'rej1',
                                                       'name': 'not hc compatible', 'kwargs': {}, 'propagate': True})
-    if breach is None and rng.random() < 0.15 and exit_kind == 'normal' and 'rename_inside_hc' not in avoid:
+    if breach is None and not want_cross and rng.random() < 0.15 and exit_kind == 'normal' and 'rename_inside_hc' not in avoid:
         # rename an object inside the context to a name the mode forbids: a breach made by assignment instead of construction
         tgt = gen.pick(rng, [op for op in spec.ops if op.get('op') == 'add' and op['kind'] in ('channel', 'zone', 'equipment', 'frame', 'axis')] or [None])
         if tgt is not None:
